@@ -1,10 +1,11 @@
 package rules
 
 import (
-	"regexp"
 	"fmt"
+	"go/ast"
 	"go/token"
 	"go/types"
+	"regexp"
 	"sort"
 	"strings"
 
@@ -412,4 +413,35 @@ func unwrapCall(s, name string) (string, bool) {
 		}
 	}
 	return in, depth == 0
+}
+
+// compositeLen returns the number of elements of the composite literal that
+// initialises a package-level variable, or -1.
+func compositeLen(p *core.Prog, rel, name string) int {
+	pk := p.Pkg(rel)
+	if pk == nil {
+		return -1
+	}
+	for _, f := range pk.Syntax {
+		for _, d := range f.Decls {
+			gd, ok := d.(*ast.GenDecl)
+			if !ok {
+				continue
+			}
+			for _, sp := range gd.Specs {
+				vs, ok := sp.(*ast.ValueSpec)
+				if !ok {
+					continue
+				}
+				for i, id := range vs.Names {
+					if id.Name == name && i < len(vs.Values) {
+						if cl, ok := vs.Values[i].(*ast.CompositeLit); ok {
+							return len(cl.Elts)
+						}
+					}
+				}
+			}
+		}
+	}
+	return -1
 }
